@@ -1003,7 +1003,7 @@ theorem ext_handle {s : Sys} (self : Cid) (e : Env) (hv : Valid s) (hc : CurOK s
       split
       · have h1 := ext_upd_same self (fun x => { x with state := .killing, restarting := some poison }) hv (fun _ => rfl)
         exact h1.trans (ext_doKill _ _ _ _ h1.valid (hc.ext h1))
-      · exact Ext.refl hv
+      · exact ext_upd_same self _ hv (fun _ => rfl)
     · split
       · rename_i w hw
         have hupd : Ext s (upd s self (fun x => { x with watchers := x.watchers ++ [w] })) := by
